@@ -469,6 +469,14 @@ def _ops():
                 sp.num_children, sp.kind, sp.type, sp.is_leaf(), sp.is_one_level(),
                 [sp.child(i) for i in range(sp.num_children)], [sp.entry(i) for i in range(sp.num_children)])
 
+    @op('registry_get')
+    def _(s):
+        # the Python-visible registry while other threads register / unregister unrelated types in other namespaces
+        table = optree.register_pytree_node.get(namespace=s.ns if s.ns else GLOBAL)
+        mine = sorted(t.__name__ for t in table if t in U.CUSTOM_CLASSES)
+        one = [getattr(optree.register_pytree_node.get(c, namespace=s.ns if s.ns else GLOBAL), 'namespace', None) for c in U.CUSTOM_CLASSES]
+        return (mine, one, sorted(k.__name__ for k in table if k in (list, dict, tuple)))
+
     @op('compose')
     def _(s):
         return s.prefix_spec.compose(s.other_spec)
